@@ -149,6 +149,7 @@ Definition value_eqb (a b : value) : bool :=
   match a, b with
   | VStr x, VStr y => str_eqb x y
   | VInt x, VInt y => Z.eqb x y
+  | VOther x, VOther y => str_eqb x y
   | _, _ => false
   end.
 
